@@ -13,6 +13,21 @@ def g1(E, k, d=None):
     return next(iter(v)) if v else d
 
 
+def lookup_object(sp):
+    """the global stralloc spawn() parses: the one object whose .s and .len it reads (found by use, not by name)"""
+    seen = {}
+    for x in sp.all_x():
+        if x.k == 'mem':
+            pth = x.path() or ''
+            m_ = re.match(r'^(G:\w+)\.(s|len)$', pth)
+            if m_:
+                seen.setdefault(m_.group(1), set()).add(m_.group(2))
+    objs = sorted(o for o, f in seen.items() if f == {'s', 'len'})
+    if len(objs) != 1:
+        raise AnalysisBroken('qmail-lspawn spawn(): the lookup result object is not unique: %s' % objs)
+    return objs[0]
+
+
 class PrivHooks(QHooks):
     """privilege typestate in a forked child: groups/gid dropped, then uid, then root refused, then exec"""
     def __init__(self, unit, need_root_check, want_gid=None, want_uid=None):
@@ -36,16 +51,18 @@ class PrivHooks(QHooks):
     RECORD = b'u\x0011\x0022\x00h\x00-\x00e\x00'
     FIELD_AT = {0: 0, 2: 1, 5: 2, 8: 3, 10: 4, 12: 5}
 
+    NU = 'G:nughde'
+
     def tracked_global(self, path):
-        return path.startswith('G:nughde') or path.startswith('NU[') or path.startswith('$')
+        return path.startswith(self.NU) or path.startswith('NU[') or path.startswith('$')
 
     def precise_arith(self, path):
         return True
 
     def materialize(self, E, path):
-        if path == 'G:nughde.s':
+        if path == self.NU + '.s':
             return fs(('&', 'NU[0]'))
-        if path == 'G:nughde.len':
+        if path == self.NU + '.len':
             return fs(len(self.RECORD))
         if path.startswith('NU['):
             k = int(path[3:-1])
@@ -699,7 +716,7 @@ class SpawnRecordHooks(_lt.SAConc, _lt.Conc):
         return [Outcome(ret=fs(0))]
 
     def prim_nughde_get(self, E, x, args):
-        sets = {'G:nughde.s': fs(('&', 'NU[0]')), 'G:nughde.len': fs(len(self.record)), '$local': args[0] if args else TOP}
+        sets = {self.NU + '.s': fs(('&', 'NU[0]')), self.NU + '.len': fs(len(self.record)), '$local': args[0] if args else TOP}
         sets.update(_lt.conc_string_cells('NU', self.record, terminate=False))
         return [Outcome(ret=TOP, sets=sets)]
 
@@ -791,6 +808,7 @@ def spawn_record_sites(db, rep, qlx):
     n = 0
     for what, record, want, fl in cases:
         H = SpawnRecordHooks(record)
+        H.NU = lookup_object(sp)
         st = {0: fs(('fd', 'mess')), 1: fs(('fd', 'out')), 2: fs(('&', 'S[0]')), 3: fs(('&', 'R[0]')), 4: fs(at)}
         st.update(_lt.conc_string_cells('S', S))
         st.update(_lt.conc_string_cells('R', R))
@@ -854,6 +872,7 @@ def run(ctx):
     r1 = rep.rule('C11.1-privilege-typestate', 'R-TYPESTATE', 'in every forked child: prot_gid (setgroups+setgid) ok, then prot_uid ok, then getuid() != 0 (qmail-lspawn), then exec; uid/gid come from fields 1 and 2 of the lookup result')
     sp = pl.fn('spawn', 'qmail-lspawn.c')
     H = PrivHooks('qmail-lspawn.c', True, want_gid=('field', 2), want_uid=('field', 1))
+    H.NU = lookup_object(sp)
     eng = Engine(db, pl, H)
     eng.run(sp, {})
     rep.count_states(eng.states, eng.transitions)
